@@ -508,6 +508,16 @@ def rule_for_to_while(text, ordinal, kind, log, label):
         head = 'let %s = %s.unicode_len(); let mut %s: usize = 0; while %s < %s' % (nv, e, iv, iv, nv)
         first = 'let %s = %s.get_char(%s); %s += 1;' % (pat, e, iv, iv)
         rule = 'R11'
+    elif kind == 'char_indices':
+        # R30: for (I, C) in S.char_indices()  ->  indexed while over the collected (offset, char) pairs
+        m = re.match(r'^(.*)\.char_indices\(\)$', expr, re.S)
+        if not m:
+            raise Undecided('%s: R30 pattern mismatch: %r' % (label, expr))
+        e = m.group(1)
+        vv = '__v%d' % ordinal
+        head = 'let %s = str_char_indices(%s); let mut %s: usize = 0; while %s < %s.len()' % (vv, e, iv, iv, vv)
+        first = 'let %s = %s[%s]; %s += 1;' % (pat, vv, iv, iv)
+        rule = 'R30'
     elif kind == 'split_lf':
         m = re.match(r"^(.*)\.split\('\\n'\)$", expr, re.S)
         if not m:
